@@ -694,6 +694,10 @@ class SymEngine:
             lo, hi = facts.len[t]
             if lo > 0:
                 ks = ks - frozenset(["BLANK"])
+        if t in facts.eq and facts.eq[t] == b"":
+            ks = ks & frozenset(["BLANK"])
+        elif b"" in facts.ne.get(t, ()):
+            ks = ks - frozenset(["BLANK"])
         return ks
 
     def refine_len(self, t, lo, hi, facts):
@@ -917,6 +921,10 @@ class SymEngine:
                 return False
             if v == 0:
                 return self.refine_len(l[1], 1, INF, facts)
+            if lo == v:
+                return self.refine_len(l[1], v + 1, INF, facts)
+            if hi == v:
+                return self.refine_len(l[1], lo, v - 1, facts)
             return True
         if v == b"" or v == () or v == []:
             if eq:
@@ -926,18 +934,12 @@ class SymEngine:
                 if v == b"" and "BLANK" not in self.kind_of(l, facts):
                     return False
                 ok = self.refine_len(l, 0, 0, facts)
-                if v == b"":
-                    ok = ok and self.refine_kind(l, ["BLANK"], facts)
                 return ok and facts.set_eq(l, v)
             lo, hi = self.len_of(l, facts)
             if hi == 0 and (l[0] in ("tuple", "list", "c")):
                 return False
-            if v == b"":
-                ks = self.kind_of(l, facts)
-                if ks == frozenset(["BLANK"]):
-                    return False
-                if not facts.set_kind(l, ALLK - frozenset(["BLANK"])):
-                    return False
+            if v == b"" and self.kind_of(l, facts) == frozenset(["BLANK"]):
+                return False
             return facts.set_ne(l, v)
         if eq:
             if hasattr(v, "__len__") and not isinstance(v, (str,)):
